@@ -730,9 +730,9 @@ def check_precedence(cls, p, vals, present, kwhow, objhow, container="none"):
             return None
         res = resolved_style(o, kw, container)
         after = canon(o.style.as_dict())
-        # sources in order of precedence; the object's own value is what its style holds (a constructor
-        # default of the style class counts as the object's own value)
-        cand = [vals[0] if present[0] else None, own_value,
+        # sources in order of precedence; only a value GIVEN to the object is its own value: what the style
+        # class constructor put there must not shadow the family / base defaults
+        cand = [vals[0] if present[0] else None, vals[1] if present[1] else None,   # a new object has no own value
                 vals[2] if present[2] and own else None,
                 vals[3] if present[3] and len(fams) > 1 else None,
                 vals[4] if present[4] and in_base else None]
@@ -743,6 +743,10 @@ def check_precedence(cls, p, vals, present, kwhow, objhow, container="none"):
         if expected is None and p in (("label",), ("color",)):
             return None            # filled in by the display code (class name / colour cycle / parent colour)
         if not same(got, canon(expected)):
+            if not present[0] and not present[1] and own_value is not None and same(got, own_value):
+                return p, (f"{'.'.join(p)} of a new {cls} resolved to {got!r}, the constructor default of its style "
+                           f"class, expected {expected!r} from the defaults (families {fams}, sources given: "
+                           f"{[n for n, ok in zip(PRESENT_NAMES, present) if ok]})"), ("ctor-default", got)
             srcs = [n for n, ok in zip(PRESENT_NAMES, present) if ok]
             return p, (f"{'.'.join(p)} resolved to {got!r}, expected {expected!r} (sources given: {srcs}, "
                        f"values kw/obj/own-family/generic-family/base = {list(vals)!r}, families {fams}, "
@@ -757,8 +761,134 @@ def show_keys():
     return {k for fam in G()["DEFAULTS"]["display"]["style"].values() for k in fam}
 
 
+def leaf_owner(st, p):
+    """<StyleClass>.<property> that owns the leaf"""
+    return f"{sub_struct(st, tuple(p)[:-1])[1]}.{tuple(p)[-1]}"
+
+
+def check_fresh_own(cls):
+    """a new object has no own style value: every leaf of its style is None (user traces: an empty list)"""
+    o = make_obj(cls)
+    out = []
+    for p, kind, alias in leaves(class_struct(cls)):
+        if alias is not None or kind[0] == "KData":
+            continue
+        v = leaf_value(o.style, p)
+        if v is not None:
+            out.append((p, v))
+    return out
+
+
+def check_family_default(cls, p, v, when):
+    """set the default of the object's own family (else the base default) of this leaf to v: an object without an own
+    value - built before or after the change - resolves to v.  returns None or (trigger-kind, what)"""
+    p = tuple(p)
+    fresh_defaults()
+    try:
+        dstyle = magpy.defaults.display.style
+        dst = sub_struct(G()["defaults_schema"], ("display", "style"))
+        fam_structs = dict(dst[5])
+        fams = spec_families(cls, p)
+        fam = fams[-1] if fams else ("base" if any(l[0] == p for l in leaves(fam_structs["base"])) else None)
+        if fam is None:
+            return None
+        o = make_obj(cls) if when == "object-first" else None
+        apply_set(getattr(dstyle, fam), p, v, ("attr", 0))
+        if o is None:
+            o = make_obj(cls)
+        own = leaf_value(o.style, p)
+        got = leaf_value(resolved_style(o, {}), p)
+        if not same(got, canon(v)):
+            kind = "ctor-default" if own is not None and same(got, own) else "family-default"
+            return kind, (f"defaults.display.style.{fam}.{'.'.join(p)} = {v!r}, then a {cls} without an own value "
+                          f"({when}) resolves {'.'.join(p)} to {got!r}"
+                          + (" - the constructor default of its style class" if kind == "ctor-default" else ""))
+        return None
+    finally:
+        fresh_defaults()
+
+
+def oracle_family_default(ctx, classes):
+    rng = ctx.rng
+    pr = canon(PRISTINE)
+    for cls in classes:
+        st = class_struct(cls)
+        for p, v in check_fresh_own(cls):
+            ctx.impl_fail(f"precedence/ctor-default:{leaf_owner(st, p)}",
+                          f"a new {cls} already has its own {'.'.join(p)} = {v!r} (constructor default of the style "
+                          f"class): the defaults of its family cannot apply", {"kind": "fresh-own", "cls": cls})
+        ctx.case(("fresh-own", cls), True)
+        ctx.bump("fresh-own")
+        for p, kind, alias in leaves(st):
+            if alias is not None or kind[0] == "KData":
+                continue
+            fams = spec_families(cls, p)
+            fam = fams[-1] if fams else "base"
+            builtin = tget(pr, ("display", "style", fam) + tuple(p))
+            vals = [x for x in fixed_points(kind) if builtin is KeyError or not same(canon(x), builtin)]
+            if not vals:
+                continue
+            for when in ("object-first", "default-first"):
+                v = rng.choice(vals)
+                try:
+                    res = check_family_default(cls, p, v, when)
+                except Exception as e:   # pylint: disable=broad-except
+                    res = ("family-default", f"{cls} {'.'.join(p)}: raised {type(e).__name__}: {e}")
+                ctx.case(("family-default", cls, p, when), True)
+                ctx.bump("family-default:" + when)
+                if res is not None:
+                    trig = ("ctor-default:" + leaf_owner(st, p)) if res[0] == "ctor-default" else \
+                        f"family-default:{st[1]}:{'.'.join(p)}"
+                    ctx.impl_fail(f"precedence/{trig}", res[1], {"kind": "family-default", "cls": cls, "p": list(p),
+                                                                  "v": v, "when": when})
+
+
+# ------------------------------------------------------------------ a show() that fails part-way must not leak
+def check_failed_show():
+    """show(other, src, style keywords) raises while src is drawn (a valid user trace that the generic backend
+    cannot draw): the objects' own styles are as before, and afterwards defaults still apply"""
+    fresh_defaults()
+    try:
+        def cub():
+            return magpy.magnet.Cuboid(polarization=(0, 0, 1), dimension=(1, 1, 1))
+
+        def snap(o):
+            d = canon(o.style.as_dict())
+            d["model3d"] = dict(d["model3d"], data="<traces>")
+            return d
+        src, other = cub(), cub()
+        src.style.label = "mine"
+        src.style.model3d.add_trace(backend="generic", constructor="Surface",
+                                    kwargs={"x": [[0, 1], [0, 1]], "y": [[0, 0], [1, 1]], "z": [[0, 0], [0, 0]]})
+        before, before_other = snap(src), snap(other)
+        kw = {"style_color": "red", "style_opacity": 0.25, "style_path_line_width": 7,
+              "style_magnetization_color_north": "blue"}
+        try:
+            magpy.show(other, src, backend="plotly", return_fig=True, **kw)
+            return None                        # nothing failed: not the situation this oracle is about
+        except Exception:   # pylint: disable=broad-except
+            pass
+        for name, o, b in (("the object whose drawing failed", src, before), ("an object drawn before", other, before_other)):
+            d = tree_diff(snap(o), b)
+            if d:
+                leaf = d[0]
+                return ("independent/failed-show-leaks-into-object",
+                        f"after a show(..., {kw}) that raised, the own style of {name} has {'.'.join(leaf)} = "
+                        f"{tget(snap(o), leaf)!r} (before: {tget(b, leaf)!r})")
+        src.style.model3d.data = []
+        magpy.defaults.display.style.base.opacity = 0.5
+        got = leaf_value(resolved_style(src, {}), ("opacity",))
+        if not same(got, 0.5):
+            return ("precedence/after-failed-show", f"after a failed show(), base default opacity 0.5 resolves to {got!r}")
+        return None
+    finally:
+        fresh_defaults()
+
+
 def precedence_trigger(st, stname, cls, p, vals, present, kwhow, objhow, container, got):
     """trigger of a precedence failure, from re-runs of the (already minimal) case"""
+    if isinstance(got, tuple) and got and got[0] == "ctor-default":
+        return "ctor-default:" + leaf_owner(st, p)
     if container != "none":
         try:
             if check_precedence(cls, p, vals, present, kwhow, objhow, "none") is None:
@@ -1806,6 +1936,16 @@ def run(ctx):
     run_guarded(ctx, lambda: oracle_batch(ctx, classes, 30 if big else 6), "C20 batch-show oracle")
     run_guarded(ctx, lambda: oracle_alias(ctx, sub, 3 if big else 1), "C20 aliasing oracle")
 
+    run_guarded(ctx, lambda: oracle_family_default(ctx, sub), "C20 family-default / fresh-object oracle")
+
+    def failed_show():
+        res = check_failed_show()
+        ctx.case(("failed-show",), True)
+        ctx.bump("failed-show")
+        if res is not None:
+            ctx.impl_fail(res[0], res[1], {"kind": "failed-show"})
+    run_guarded(ctx, failed_show, "C20 failed show() oracle")
+
     def fig():
         res = check_show_figure()
         ctx.case(("show-figure",), True)
@@ -1849,6 +1989,13 @@ def replay(ctx, obj):
         res = check_reset_history([tuple(x) for x in rp["steps"]])
     elif k == "batch":
         res = check_batch([tuple(x) for x in rp["specs"]], rp["kw"])
+    elif k == "fresh-own":
+        r = check_fresh_own(rp["cls"])
+        res = None if not r else f"a new {rp['cls']} has own values {r!r}"
+    elif k == "family-default":
+        res = check_family_default(rp["cls"], rp["p"], rp["v"], rp["when"])
+    elif k == "failed-show":
+        res = check_failed_show()
     elif k == "show-figure":
         res = check_show_figure()
     elif k == "alias":
